@@ -42,6 +42,46 @@ META = {
  "C19-m2": ("NewResolver validates with normalizeAddrs but dials the un-normalised list", "a -resolvers entry without a port"),
  "C20-m1": ("per-label-set series cache resolves the fail counter without the message label", ">= 2 failed results sharing (method,url,status) with different error messages"),
  "C20-m2": ("label values kept in a scratch buffer shared by all Observe calls", ">= 2 goroutines observing different label sets at the same time"),
+ "C01-m3": ("LinearPacer.hits loses its clamp at the zero crossing of the rate (half of the fix of this task undone)", "negative slope and one stall spanning from before the zero crossing to after twice its time"),
+ "C01-m4": ("zero-interval branch of ConstantPacer floors the due instant instead of rounding up", "more than one hit per nanosecond (Freq > Per in ns), observed at 1 ns resolution"),
+ "C02-m3": ("CLI arms time.AfterFunc(duration, atk.Stop): the timer consumes the one Stop()==true", "-duration elapsed with hits still in flight, then exactly one SIGINT: the pump returns at once and in-flight results are dropped"),
+ "C02-m4": ("hit() assigns seq and timestamp only after the targeter call", "a targeter failing mid-attack: its result gets Seq 0 (duplicate) and a gap"),
+ "C03-m3": ("CLI raises -max-workers to -workers when it is smaller", "-max-workers below -workers (also its default 10) plus saturation"),
+ "C03-m4": ("fallback to DefaultWorkers for Workers(0) placed after the clamp", "Workers(0) with MaxWorkers below 10 and saturation"),
+ "C04-m3": ("the wait is shortened to the remaining duration but the tick is still sent", "a duration and a pacer whose next wait crosses the deadline"),
+ "C04-m4": ("time.Sleep replaced by timer+select on the stop channel without returning on stop", "Stop() arriving during the loop's wait with an idle worker; the random select then may send the tick early"),
+ "C05-m3": ("critical section skipped when the initial worker count is 1 (`serial` flag)", "Workers(1) with MaxWorkers > 1, pool growth and concurrent entry into the hit path"),
+ "C05-m4": ("latency clamped to the client timeout on timeout errors", "a hit that times out at the client, with an independent measurement of the transport time"),
+ "C06-m3": ("body read with io.ReadFull into a buffer sized from Content-Length", "a HEAD target answered with a non-zero Content-Length"),
+ "C06-m4": ("bytes discarded by the drain are added to BytesIn", "MaxBody(n) smaller than the response body"),
+ "C07-m3": ("headerBytes guard `h == nil` became `len(h) == 0`", "a result whose Headers is a non-nil empty map, through the CSV codec"),
+ "C07-m4": ("JSON timestamp written with layout RFC3339 instead of RFC3339Nano", "a timestamp with a non-zero sub-second part"),
+ "C08-m3": ("output files opened without O_TRUNC", "an encode run whose -output path already exists and is longer than the new output"),
+ "C08-m4": ("DecoderFor returns a CSV decoder without a trial decode when gob and JSON fail", "non-empty input in none of the formats"),
+ "C09-m3": ("CLI result pump writes through a 256-deep buffered channel and a writer goroutine", "an output that stalls while results keep arriving, then a kill: every queued result is lost"),
+ "C09-m4": ("gob decoder decodes into one shared scratch Result", "a heterogeneous gob stream (gob leaves zero fields untouched, maps and slices are shared)"),
+ "C10-m3": ("`report -every` decodes in a goroutine; EOF can overtake queued results", "the -every flag and the interleaving where the error channel wins the select"),
+ "C10-m4": ("Min/Max updated in an if/else-if chain", "the maximum arriving as a new minimum (first sample, descending prefix, single result)"),
+ "C11-m3": ("Min/Max updated in an if/else-if chain (first sample only sets Min)", "reverse-sorted arrival or n = 1: p99 > max"),
+ "C11-m4": ("digest fed seconds as float and converted back", "values whose float round trip loses 1 ns: constant data reports percentile = value - 1ns"),
+ "C12-m3": ("`vegeta report` skips results with latency <= 0 ('negative')", "results with latency exactly 0 through the CLI"),
+ "C12-m4": ("Histogram.Add remembers the previous bucket and steps back off by one", "a result in bucket k followed by one belonging to a lower bucket"),
+ "C13-m3": ("decoder(files) trusts the extensions .gob/.json/.csv", "several files, one with an extension that does not match its encoding"),
+ "C13-m4": ("DecoderFor takes its sniff buffer from a sync.Pool and returns it while the decoder still reads from it", "two or more inputs opened with DecoderFor before the first is read"),
+ "C14-m3": ("-proxy-header flag bound to the request-header variable", "the -proxy-header option on the command line"),
+ "C14-m4": ("JSON targeter stores the default slice itself when the target has no value for the key", "a default key repeated in two targets with spare capacity in the default slice"),
+ "C15-m3": ("hit() takes its Target from a sync.Pool without resetting it", "a lazy attack with the JSON targeter and headers (targeter called directly is still correct)"),
+ "C15-m4": ("HTTP targeter reads a plain `done` flag before taking its lock", "concurrent callers around exhaustion, under the race detector only"),
+ "C16-m3": ("CSV decoder accepts short legacy records with an off-by-one guard", "a record with exactly 11 columns"),
+ "C16-m4": ("header loop rewritten as a switch: `break` leaves the switch, the pushed-back request line is re-read for ever", "a comment inside a header block directly followed by the next request line"),
+ "C17-m3": ("`vegeta plot` replaces thresholds < 1 by the default 4000", "-threshold=0 and a series of more than 4000 results"),
+ "C17-m4": ("rows sorted only when more than one attack is plotted", "one attack name with both OK and ERROR results"),
+ "C18-m3": ("CLI appends KeepAlive(false) after DNSCaching/ConnectTo, which re-installs the plain dialer", "-keepalive=false together with -connect-to / -dns-ttl"),
+ "C18-m4": ("shuffle skipped when the cached list has at most two addresses", "a host resolving to exactly two same-family addresses, dialled repeatedly"),
+ "C19-m3": ("CLI installs DNSCaching only when dns-ttl > 0", "dns-ttl 0 or unset, host-name target, several connections, an observer of DNS lookups"),
+ "C19-m4": ("rate flag splits on every slash and ignores fields after the second", "a -rate value with two or more slashes such as 50/1s/2s"),
+ "C20-m3": ("CLI observes through a 1024-slot channel with a non-blocking send", "a burst of more than 1024 results arriving faster than Observe consumes them"),
+ "C20-m4": ("failure counter keyed on the status code instead of the error text", "results whose error and status disagree (2xx with a body read error)"),
 }
 root = "/verif/seeded"
 for k, (desc, needs) in META.items():
@@ -55,6 +95,6 @@ for k, (desc, needs) in META.items():
     json.dump(m, open(p, "w"), indent=1)
     pid, mm = k.split("-")
     readme = f"/tmp/seed/{pid}/out/README.md"
-    if os.path.exists(readme):
+    if mm in ("m1", "m2") and os.path.exists(readme):
         shutil.copy(readme, os.path.join(d, "AUTHOR_README.md"))
 print("ok")
